@@ -3,6 +3,9 @@ class Config:
 
     def __init__(self, config_dict: dict = None):
         config_dict = {} if config_dict is None else config_dict
+        for key in config_dict:
+            if key not in Config.FIELDS:
+                raise KeyError(f"'{key}' is not a valid configuration option")
         for field, choices in Config.FIELDS.items():
             if field in config_dict:
                 value = config_dict[field]
